@@ -22,6 +22,12 @@ func gen(tier string, r *lib.Rand, emit func(string)) {
 	for _, s := range acclib.Rejections {
 		emit("load " + hex(s))
 	}
+	// parse histories (print histories belong to C07; the shared generator emits both kinds)
+	acclib.HistCases(tier, r, func(c string) {
+		if strings.HasPrefix(c, "parsehist") {
+			emit(c)
+		}
+	})
 	// large sizes: long sums, deep nesting, many statements, wide alignment padding
 	for _, sh := range acclib.LargeShapes {
 		for _, n := range acclib.LargeSizes(tier) {
@@ -109,6 +115,9 @@ func gen(tier string, r *lib.Rand, emit func(string)) {
 func nontrivial(c, res string) bool {
 	// parsed and contains at least two operators
 	f := strings.Split(res, " ")
+	if strings.HasPrefix(c, "parsehist") {
+		return true
+	}
 	if strings.HasPrefix(c, "deepparse") || strings.HasPrefix(c, "large") {
 		return res == "ok"
 	}
